@@ -337,5 +337,71 @@ func C12(ctx *core.Ctx) error {
 			ctx.Count("fault-on:" + clean[k].kind)
 		}
 	}
+	return c12ChoiceFaults(ctx, r.Fork(31337))
+}
+
+// c12ChoiceFaults: upserts that switch choice cases (the old case is cleared through ClearField and
+// nested Delete edits). Every callback position is failed once; the requirement on error surfacing
+// (the call returns an error wrapping the injected one, nothing is written afterwards) is decided on
+// the observed callbacks.
+func c12ChoiceFaults(ctx *core.Ctx, r *gen.Rng) error {
+	opts := tree.GenOpts{MaxDepth: 2, MaxKids: 3, Lists: true, Choices: true, ChoiceHeavy: true, KeyTypes: []string{"string", "int32"},
+		Types: []string{"int32", "string", "boolean"}}
+	nsc := ctx.Scale(10, 200)
+	maxFaults := ctx.Scale(40, 200)
+	for n := 0; n < nsc; n++ {
+		yang, m, root, err := tree.GenSchema(r.Fork(uint64(n)), opts)
+		if err != nil {
+			return fmt.Errorf("schema: %v", err)
+		}
+		dr := r.Fork(uint64(500 + n))
+		tgt := tree.GenData(dr, root, 80, 2)
+		src := tree.GenDataAgainst(dr, root, 60, 2, tgt)
+		sc := &c12Scenario{yang: yang, m: m, root: root, src: src, tgt: tgt, op: "Upsert", fromDir: dr.Bool()}
+		clean, errored, _, panicked := sc.run(-1)
+		if errored || panicked != "" || len(clean) == 0 {
+			ctx.Count("choice-scenario-unusable")
+			continue
+		}
+		clears := 0
+		for _, e := range clean {
+			if e.target && e.kind == "write" && (strings.Contains(e.detail, "clear") || strings.Contains(e.detail, "delete=true")) {
+				clears++
+			}
+		}
+		if clears == 0 {
+			ctx.Count("choice-scenario:no-case-switch")
+			continue
+		}
+		ctx.Count("choice-scenario:switches-a-case")
+		base := map[string]interface{}{"yang": yang, "call": "Upsert (switching a choice case)", "source": src.Desc(root), "target": tgt.Desc(root)}
+		stride := 1
+		if len(clean) > maxFaults {
+			stride = len(clean)/maxFaults + 1
+		}
+		for k := 0; k < len(clean); k += stride {
+			evs, errored, wrapped, panicked := sc.run(k)
+			outcome := 0
+			switch {
+			case panicked != "":
+				outcome = 3
+			case errored && wrapped:
+				outcome = 1
+			case errored:
+				outcome = 2
+			}
+			fk := 0
+			if strings.HasPrefix(clean[k].detail, "choose") {
+				fk = 2
+				if clean[k].target {
+					fk = 1
+				}
+			}
+			d := map[string]interface{}{"scenario": base, "fault_at": k, "failing_callback": eventsDesc(clean[k : k+1])[0],
+				"trace": eventsDesc(evs), "errored": errored, "wraps_injected": wrapped, "panic": panicked}
+			ctx.Add(emit.App("CFaultSpec", emit.Nat(fk), eventsTerm(evs), emit.Nat(outcome)), d, true)
+			ctx.Count("choice-fault-on:" + clean[k].kind)
+		}
+	}
 	return nil
 }
